@@ -25,7 +25,7 @@ const PRE: [&str; 10] = [
     "cmd e1\\.e2 \\(e3\\);\n",
 ];
 
-const HEAD: [&str; 13] = [
+const HEAD: [&str; 15] = [
     "",
     "a",
     "foo\\.bar",
@@ -39,6 +39,9 @@ const HEAD: [&str; 13] = [
     "x=(y|z)",
     "[o]...",
     "\\;\\{\\}\\[\\]",
+    // multi-byte text before the token on its line: columns may count bytes or characters
+    "w \"d\u{e9}\u{142}\u{20ac}\"",
+    "{{{ echo \u{17c}\u{f3}\u{142} }}}",
 ];
 
 const SEP: [&str; 8] = [" ", "  ", "\t", "\n", "\n    ", "\n\t", " # c\n", "\n\n"];
@@ -214,6 +217,36 @@ fn cases(f: &mut dyn FnMut(Case)) {
             }
         }
     }
+    // shapes of the spaces-inside-a-word diagnostic (not multiplied by the slot menus)
+    let mk = |kind: &'static str, d: Doc, ordered: bool| Case { kind, text: d.s, expect: d.marks, ordered, warning: None, slot: (0, 0, 0) };
+    for mid in ["<X>", "{{{ c }}}"] {
+        // the literal next to `v` is the last one of a group that ends in a group
+        let mut d = Doc::new();
+        d.p("cmd ({{{ d }}}(p ").p(mid).p(" ").mark("left", "q").p("))").mark("right", "v").p(";\n");
+        f(mk("subword-spaces", d, true));
+        // ... and the first one of a group that starts with a group
+        let mut d = Doc::new();
+        d.p("cmd ").mark("left", "v").p("((").mark("right", "p").p(" ").p(mid).p(")z);\n");
+        f(mk("subword-spaces", d, true));
+    }
+    {
+        // through two definitions: the group sits in the inner one
+        let mut d = Doc::new();
+        d.p("cmd --o=");
+        let ref_off = d.s.len();
+        d.p("<A>;\n<A> = (<Z>").mark("reference", "<B>").p(")").mark("right", "v").p(";\n<B> = p<X>").mark("left", "q").p(";\n");
+        d.marks.push(Expect { role: "reference", offset: ref_off, len: 3 });
+        f(mk("subword-spaces-nested", d, false));
+    }
+    for other in ["{{{ c }}}", "lit", "x | y"] {
+        // an unrelated reference earlier in the call must not show up among the locations
+        let mut d = Doc::new();
+        d.p("cmd <M> --o=");
+        let ref_off = d.s.len();
+        d.p("<A> <M>;\n<M> = ").p(other).p(";\n<A> = ").mark("left", "quit").p(" ").mark("right", "-f").p(";\n");
+        d.marks.push(Expect { role: "reference", offset: ref_off, len: 3 });
+        f(mk("subword-spaces", d, true));
+    }
 }
 
 fn line_col(text: &str, offset: usize) -> (usize, usize) {
@@ -246,7 +279,7 @@ fn expected_kind(kind: &str) -> &'static str {
         "unknown-shell" => "UnknownShell",
         "varying-command-names" => "VaryingCommandNames",
         "invalid-command-name" => "InvalidCommandName",
-        "subword-spaces" | "subword-spaces-after-escape" => "SubwordSpaces",
+        "subword-spaces" | "subword-spaces-after-escape" | "subword-spaces-nested" => "SubwordSpaces",
         "non-command-specialization" => "NonCommandSpecialization",
         "unbounded-placeholder" => "UnboundedMatchable",
         "cycle" => "NonterminalDefinitionsCycle",
@@ -255,28 +288,40 @@ fn expected_kind(kind: &str) -> &'static str {
     }
 }
 
-/// compare reported spans with the planted positions; Err(description)
+/// column of `offset` counted in characters
+fn char_col(text: &str, offset: usize) -> usize {
+    let before = &text[..offset];
+    let start = before.rfind('\n').map(|i| i + 1).unwrap_or(0);
+    before[start..].chars().count() + 1
+}
+
+/// compare reported spans with the planted positions; Err(description).  A column may count
+/// bytes (what complgen does) or characters; start and end must use the same convention.
 fn compare(case: &Case, got: &[(usize, usize, Option<usize>)]) -> Result<(), String> {
-    let exp: Vec<(usize, usize, usize, &str)> = case
+    // (line, [(start, end) in bytes, (start, end) in characters], role)
+    let exp: Vec<(usize, [(usize, usize); 2], &str)> = case
         .expect
         .iter()
         .map(|e| {
             let (l, c) = line_col(&case.text, e.offset);
-            (l, c, c + e.len, e.role)
+            let cc = char_col(&case.text, e.offset);
+            let nchars = case.text[e.offset..e.offset + e.len].chars().count();
+            (l, [(c, c + e.len), (cc, cc + nchars)], e.role)
         })
         .collect();
+    let matches = |g: &(usize, usize, Option<usize>), e: &(usize, [(usize, usize); 2], &str), check_end: bool| -> bool {
+        g.0 == e.0 && e.1.iter().any(|(s, en)| g.1 == *s && (!check_end || g.2.map(|end| end == *en).unwrap_or(true)))
+    };
     if case.ordered {
         if got.len() != exp.len() {
             return Err(format!("{} location(s) reported, {} expected ({:?} vs {:?})", got.len(), exp.len(), got, exp));
         }
         for (g, e) in got.iter().zip(exp.iter()) {
-            if g.0 != e.0 || g.1 != e.1 {
-                return Err(format!("{} reported at {}:{}, it starts at {}:{}", e.3, g.0, g.1, e.0, e.1));
+            if !matches(g, e, false) {
+                return Err(format!("{} reported at {}:{}, it starts at {}:{}", e.2, g.0, g.1, e.0, e.1[0].0));
             }
-            if let Some(end) = g.2 {
-                if case.kind != "parse-error" && end != e.2 {
-                    return Err(format!("{} at {}:{} reported to end at column {}, the token ends at column {}", e.3, e.0, e.1, end, e.2));
-                }
+            if case.kind != "parse-error" && !matches(g, e, true) {
+                return Err(format!("{} at {}:{} reported to end at column {:?}, the token ends at column {}", e.2, e.0, g.1, g.2, e.1[0].1));
             }
         }
     } else {
@@ -284,7 +329,7 @@ fn compare(case: &Case, got: &[(usize, usize, Option<usize>)]) -> Result<(), Str
             return Err("no location reported".into());
         }
         for g in got {
-            if !exp.iter().any(|e| e.0 == g.0 && e.1 == g.1 && g.2.map(|end| end == e.2).unwrap_or(true)) {
+            if !exp.iter().any(|e| matches(g, e, true)) {
                 return Err(format!("a location {}:{} is reported where none of the involved names occurs ({:?})", g.0, g.1, exp));
             }
         }
